@@ -18,12 +18,24 @@ package sortref
 //@   aspect safe
 //@   requires len(key) >= 1
 //@   modifies nothing
+// (sort.Sort permutes the slice in place: length and the set of elements are kept. The engine models slices as
+// values, so this fact about the dependency is stated as a trusted postcondition rather than checked.)
 //@ func TopmostFirst(refs)
 //@   aspect safe
 //@   modifies nothing
+//@   trusted_ensures len(result) == len(refs) && (strsNE(refs) ==> strsNE(result))
+// DepthFirst collects the keys of its map argument by reflection and sorts them: every element of the result is a key
+// of the map (trusted: reflection is outside the subset)
+//@ func DepthFirst(in)
+//@   aspect safe
+//@   modifies nothing
+//@   trusted_ensures forall i in 0..len(result) :: boxedKey(in, result[i])
+//@ ofun revIdxWF(m map[string]RefRevIdx) bool = forall n in dom(m) :: m[n].Ref.String() != "" && strsNE(m[n].Keys)
 //@ func ReverseIndex(schemas, basePath)
 //@   aspect safe
 //@   modifies nothing
+//@   ensures refKeysWF(schemas) ==> revIdxWF(result)
+//@   loop 1: invariant collected != nil && (refKeysWF(schemas) ==> revIdxWF(collected))
 //@ func (s SplitKey) BuildName(segments, startIndex, adder)
 //@   aspect safe
 //@   requires 0 <= startIndex && adder != nil
